@@ -15,7 +15,7 @@ D5 size bookkeeping  a function that adjusts `size` by one does so exactly once 
 NOT decided: link correctness of reverse / sort / merge.
 """
 from .. import astfacts, listrules
-from ..facts import Prover
+from ..facts import Prover, strip_bitcasts
 from ..ir import const_int, resolve_addr, unit_step
 from .util import header_functions, floc
 
@@ -130,6 +130,60 @@ def run(m, rep, tier):
         d5.violation('dlist:insertion', 'no function increments the element count although elements can be inserted', 'src/dlist.c', {})
     if not [f for f in adj if has(f, -1)]:
         d5.violation('dlist:removal', 'no function decrements the element count although elements can be removed', 'src/dlist.c', {})
+
+    # ---- D10: (function pointer, context) pairing ---------------------------------------------
+    from .util import check_callback_context
+    _cb = rep.rule('D10', 'every call through a caller-supplied function pointer passes the context supplied with it', floor=1)
+    check_callback_context(m, _cb, ('dlist.c',))
+
+    # ---- D9: visiting walks end at the sentinel ----------------------------------------------
+    d9 = rep.rule('D9', 'a walk that visits / compares elements ends at the head sentinel, never at an element (which would go unvisited)', floor=1)
+    from ..facts import phi_leaves, FactCache
+    nwalk = 0
+    for f in m.all_plain_functions():
+        if not (f.file or '').endswith('dlist.c'):
+            continue
+        if not any(c.op == 'call' and c.callee is None for c in f.all_insts()):
+            continue
+        fc = FactCache(f)
+        for ic in f.all_insts():
+            if ic.op != 'icmp' or ic.pred not in ('eq', 'ne'):
+                continue
+            ops = [strip_bitcasts(f, o) if isinstance(o, str) else o for o in ic.o]
+            phis = [o for o in ops if isinstance(o, str) and f.get(o) is not None and f.get(o).op == 'phi' and (f.get(o).ty or '').startswith('%struct.cstl_dlist_node')]
+            # the cursor is the loop-carried one: a phi with an incoming edge from a block its own block dominates
+            def carried(r):
+                pi = f.get(r)
+                return any(f.dominates_block(pi.block, f.bb[bb]) for bb in pi.x['bb'])
+            phis = [o for o in phis if carried(o)]
+            if len(phis) != 1:
+                continue
+            other = ops[1] if ops[0] == phis[0] else ops[0]
+            if other == 'null':
+                continue
+            nwalk += 1
+            kinds = [listrules.anchor_kind(f, leaf, 'cstl_dlist', 'cstl_dlist_node') for leaf, _, _ in phi_leaves(f, fc, other)]
+            site = '%s:walk-end@%d' % (f.name, ic.line or 0)
+            if any(k in ('first', 'last') for k in kinds):
+                d9.violation(site, 'the walk in %s stops when its cursor reaches the list\'s %s element instead of the head sentinel: that element is '
+                             'never visited / compared (a match located only there is missed)' % (f.name, [k for k in kinds if k in ('first', 'last')][0]), ic.loc(), {})
+            elif all(k == 'head' for k in kinds):
+                d9.ok(site, 'cursor compared with the head sentinel', ic.loc())
+            else:
+                d9.ok(site, 'NOT DECIDED: cursor compared with %s' % kinds, ic.loc())
+    if nwalk == 0:
+        d9.undecided('dlist-walks', 'no visiting walk with a cursor comparison found in dlist.c')
+
+    # ---- D8: link primitive direction vs. anchors ----------------------------------------
+    d8 = rep.rule('D8', 'push_front / push_back / insert pass the anchor that matches the direction in which the link primitive links', floor=3)
+    listrules.check_insert_anchors(m, d8, 'dlist', '__cstl_dlist_insert', 'cstl_dlist', 'cstl_dlist_node',
+                                   {'cstl_dlist_push_front': 'front', 'cstl_dlist_push_back': 'back', 'cstl_dlist_insert': ('after', '$1')})
+
+    # ---- D7: swap completeness ------------------------------------------------------------
+    from .util import check_swap_complete
+    _sw = rep.rule('D7', 'swap exchanges every member of the two lists before re-anchoring', floor=1)
+    for _n in ('cstl_dlist_swap',):
+        check_swap_complete(m, _n, _sw)
 
 
 def check_swap(m, f, rule):
